@@ -161,11 +161,10 @@ Definition power_rows (rows : list (Z * list Z)) : list (list Z) :=
 Definition plain_shape (lengths : list Z) : list (Z * list Z) := map (fun l => (l, [])) lengths.
 
 (* ---------- digit encoding (DigitEncoding = AlphabetEncoding "0123456789") ----------
-   the lookup table also maps alphabet+32, i.e. 'P'..'Y', to 0..9 (alphabet_encoding.py:24);
-   any other byte anywhere in the batch raises EncodingError for the whole batch *)
+   any byte other than '0'..'9' anywhere in the batch raises EncodingError for the whole batch, with the flat offset
+   of the first such byte (the lower-case table no longer maps 'P'..'Y' to digits) *)
 Definition digit_code (c : Z) : option Z :=
-  if (48 <=? c) && (c <=? 57) then Some (c - 48)
-  else if (80 <=? c) && (c <=? 89) then Some (c - 80) else None.
+  if (48 <=? c) && (c <=? 57) then Some (c - 48) else None.
 Fixpoint encode_digits (t : list Z) : option (list Z) :=
   match t with
   | [] => Some []
@@ -506,4 +505,106 @@ Definition pow_of_table (tbl : list (Z * Z)) (k : Z) : option dy :=
   | Some kv => if dbl_finite (snd kv) then Some (canon (dbl_m (snd kv)) (dbl_e (snd kv))) else None
   | None => None
   end.
+
+(* ====================================================================================== *)
+(* Malformed texts: which exception, reported at which row                                  *)
+(* ====================================================================================== *)
+(* outcome of a parser call: values, EncodingError reported at a row of the batch, or another exception
+   (ValueError from indexing an empty row, from mis-shaped slices, ...) *)
+Inductive pres (A : Type) : Type := POk (x : A) | PEnc (row : Z) | POther.
+Arguments POk {A} x. Arguments PEnc {A} row. Arguments POther {A}.
+Fixpoint find_index {A} (p : A -> bool) (l : list A) (i : Z) : option Z :=
+  match l with [] => None | x :: r => if p x then Some i else find_index p r (i + 1) end.
+(* the row a flat offset lies in: np.searchsorted(np.cumsum(lengths), offset, side="right") *)
+Definition row_of_offset (lens : list Z) (o : Z) : Z := len (filter (fun c => c <=? o) (cumsum lens)).
+Definition first_bad_char (ts : list (list Z)) : option Z :=
+  find_index (fun c => match digit_code c with None => true | Some _ => false end) (concat ts) 0.
+Definition is_empty (t : list Z) : bool := len t =? 0.
+Definition signed (t : list Z) : bool := head_is 45 t || head_is 43 t.
+Definition sign_only (t : list Z) : bool := signed t && (len t =? 1).
+(* str_to_int (strops.py, after 4a1f4c0): indexing column 0 of an empty row fails first; then a sign without digits
+   is reported at the first such row; then the digit encoder reports the first bad byte of the whole flat text *)
+Definition str_to_int_res (texts : list (list Z)) : pres (list Z) :=
+  match texts with
+  | [] => POk []
+  | _ =>
+    if existsb is_empty texts then POther
+    else match find_index sign_only texts 0 with
+         | Some r => PEnc r
+         | None =>
+           match first_bad_char (map strip_sign texts) with
+           | Some o => PEnc (row_of_offset (map len texts) o)
+           | None => match str_to_int_rows texts with Some vs => POk vs | None => POther end
+           end
+         end
+  end.
+(* _decimal_str_to_float: empty row -> ValueError; more than one '.', then no digit at all, then a bad byte *)
+Definition dec_err (texts : list (list Z)) : pres unit :=
+  if existsb is_empty texts then POther
+  else match find_index (fun t => 1 <? len (dot_cols t)) texts 0 with
+       | Some r => PEnc r
+       | None =>
+         match find_index (fun t => len t - len (dot_cols t) - b2z (signed t) <=? 0) texts 0 with
+         | Some r => PEnc r
+         | None => match first_bad_char (map (dec_prepare true) texts) with
+                   | Some o => PEnc (row_of_offset (map len texts) o)
+                   | None => POk tt
+                   end
+         end
+       end.
+Definition int_err (texts : list (list Z)) : pres unit :=
+  match str_to_int_res texts with POk _ => POk tt | PEnc r => PEnc r | POther => POther end.
+(* _scientific_str_to_float: np.nonzero(text == 'e') must give one column per row, else the slices are mis-shaped *)
+Definition sci_err (texts : list (list Z)) : pres unit :=
+  if existsb (fun t => negb (count_eq 101 t =? 1)) texts then POther
+  else let parts := map (split_first 101) texts in
+       match dec_err (map fst parts) with
+       | POk _ => int_err (map exp_part parts)
+       | e => e
+       end.
+Definition float_batch_err (texts : list (list Z)) : pres unit :=
+  let sci := map has_e texts in
+  let a := mask_select sci texts in
+  let b := mask_select (map negb sci) texts in
+  match (match a with [] => POk tt | _ => sci_err a end) with
+  | POk _ => (match b with [] => POk tt | _ => dec_err b end)
+  | e => e
+  end.
+(* str_to_float (after a4c97df): on an EncodingError of a batch of several rows, the rows are parsed one by one and the
+   first one that raises EncodingError is reported; any other exception met on the way propagates *)
+Fixpoint first_failing_row (texts : list (list Z)) (i : Z) : pres unit :=
+  match texts with
+  | [] => POther
+  | t :: r => match float_batch_err [t] with
+              | POk _ => first_failing_row r (i + 1)
+              | PEnc _ => PEnc i
+              | POther => POther
+              end
+  end.
+Definition str_to_float_err (texts : list (list Z)) : pres unit :=
+  match float_batch_err texts with
+  | POk _ => POk tt
+  | POther => POther
+  | PEnc _ => if len texts =? 1 then PEnc 0 else first_failing_row texts 0
+  end.
+
+(* ---- the same outcomes after the proposed repair notes/C18.fix-3.diff: every malformed text raises EncodingError, and a
+        batch is re-parsed row by row on the error path, so the error is reported at the first row that does not parse ---- *)
+Definition int_text_ok (t : list Z) : bool :=
+  negb (is_empty t) && negb (sign_only t)
+  && match first_bad_char [strip_sign t] with None => true | Some _ => false end.
+Definition dec_text_ok (t : list Z) : bool :=
+  negb (is_empty t) && (len (dot_cols t) <=? 1) && (0 <? len t - len (dot_cols t) - b2z (signed t))
+  && match first_bad_char [dec_prepare true t] with None => true | Some _ => false end.
+Definition float_text_ok (t : list Z) : bool :=
+  if has_e t then (count_eq 101 t =? 1)
+                  && (let p := split_first 101 t in dec_text_ok (fst p) && int_text_ok (exp_part p))
+  else dec_text_ok t.
+Definition str_to_int_res_fixed (texts : list (list Z)) : pres (list Z) :=
+  match find_index (fun t => negb (int_text_ok t)) texts 0 with
+  | Some r => PEnc r
+  | None => match str_to_int_rows texts with Some vs => POk vs | None => POther end
+  end.
+Definition str_to_float_err_fixed (texts : list (list Z)) : pres unit :=
+  match find_index (fun t => negb (float_text_ok t)) texts 0 with Some r => PEnc r | None => POk tt end.
 
